@@ -1,10 +1,13 @@
 #!/bin/sh
 # tools/reeval.sh [pattern] — re-runs tools/evalseed.sh for every stored evaluation directory /tmp/final/w?-C??-? with the
 # checks it was evaluated with before (all of them, caught or not), then rebuilds seeded/ via tools/mkresults.py.
+#   SINCE=<epoch>  skip what has been re-evaluated (without trouble) after that moment: resume / several instances
+#   NO_RESULTS=1   do not rebuild seeded/ at the end
 cd "$(dirname "$0")/.."
 for d in /tmp/final/${1:-w?-C??-?}; do
   [ -f "$d/patch.diff" ] || continue
-  b=$(basename "$d"); pid=$(echo $b | cut -d- -f2); v=$(echo $b | cut -d- -f3)
+  if [ -n "${SINCE:-}" ] && [ "$(stat -c %Y "$d/eval.log")" -gt "$SINCE" ] && ! grep -q "exit=2" "$d/eval.log"; then continue; fi
+  b=$(basename "$d")
   props=$(grep -oE "^== C[0-9]+" "$d/eval.log" | cut -c4- | sort -u | tr '\n' ' ')
   demo=$(ls "$d" | grep -E "^zz_demo_.*_test.go$" | head -1)
   s=$(date +%s)
@@ -12,4 +15,4 @@ for d in /tmp/final/${1:-w?-C??-?}; do
   mv "$d/eval.new" "$d/eval.log"
   echo "$b ($(( $(date +%s) - s ))s): $(grep -E '^== ' "$d/eval.log" | tr '\n' ' ')"
 done
-python3 tools/mkresults.py
+[ -n "${NO_RESULTS:-}" ] || python3 tools/mkresults.py
